@@ -11,8 +11,12 @@ for sid in ids:
     r = subprocess.run(["git", "-C", "/repo", "apply", os.path.join(sd, "patch.diff")], capture_output=True, text=True)
     if r.returncode != 0:
         print(sid, "PATCH DOES NOT APPLY", r.stderr[:200]); continue
+    ev = os.path.join("/verif/evidence", prop + ".json")
+    saved = open(ev).read() if os.path.exists(ev) else None
     out = subprocess.run(["./check", prop, "--tier", "quick"], cwd="/verif", capture_output=True, text=True, env=dict(os.environ, VERIF_SEED="0"))
     subprocess.run(["git", "-C", "/repo", "checkout", "--", "."], check=True)
+    if saved is not None:
+        open(ev, "w").write(saved)          # evidence committed must come from the unchanged tree
     viol = [l for l in out.stdout.split("\n") if l.startswith("VIOLATION")]
     reason = None
     if viol:
